@@ -284,7 +284,8 @@ class C12(Check):
         n = 1500 if tier == 'quick' else 40000
         rng = random.Random(seed * 5413 + 12)
         for i in range(n):
-            backend = rng.choice(['dict', 'dict', 'dict', 'maildir'])
+            backend = rng.choice(['dict', 'dict', 'dict', 'maildir',
+                                  'maildir-colon'])
             mode = 'examine'
             if backend == 'dict' and rng.random() < 0.4:
                 mode = 'readonly-mailbox'
